@@ -63,7 +63,7 @@ Judge(rec) ==
         frozenNext ==
             IF DOMAIN rec.post.bids = {} THEN TRUE
             ELSE IF rec.req.kind = "migrate" /\ rec.resp.ok /\ rec.post.cfg.bidfee # rec.pre.cfg.bidfee THEN FALSE
-            ELSE IF rec.reset \/ ~rec.chained THEN (rec.req.kind # "migrate")
+            ELSE IF ~rec.chained \/ rec.req.kind = "instantiate" THEN TRUE
             ELSE frozen
         v ==    (IF care THEN StepClauses(rec.pre, rec.env, rec.req, rec.resp, rec.post) ELSE {})
            \cup (IF care THEN StateClauses(rec.post, frozenNext /\ rec.chained, rec.native) ELSE {})
